@@ -68,12 +68,167 @@ def check_roundtrip(inp):
     return None
 
 
-CHECKS = {'roundtrip': check_roundtrip}
+# ---------------------------------------------------------------------------------------
+# deeply nested formulas (built by program: "grant within 120 steps", a conjunction folded over 300
+# atoms).  Everything on the harness side is iterative; the interpreter's recursion limit is left alone.
+
+def deep_formula(logic, shape, k):
+    """Harness tuple of nesting k, built inside-out."""
+    P_, Q_ = fm.P, fm.Q
+    nxt = {'PL': lambda f: ('not', f), 'LTL': lambda f: ('X', f), 'CTLS': lambda f: ('X', f),
+           'CTL': lambda f: ('A', ('X', f))}[logic]
+    nxt2 = {'PL': lambda f: ('not', f), 'LTL': lambda f: ('G', f), 'CTLS': lambda f: ('E', ('F', f)),
+            'CTL': lambda f: ('E', ('G', f))}[logic]
+    unt = {'PL': lambda a, b: ('imp', a, b), 'LTL': lambda a, b: ('U', a, b), 'CTLS': lambda a, b: ('R', a, b),
+           'CTL': lambda a, b: ('E', ('U', a, b))}[logic]
+    f = P_
+    for i in range(0 if shape.startswith('wide-') else k):
+        if shape == 'next-chain':
+            f = nxt(f)
+        elif shape == 'not-chain':
+            f = ('not', f)
+        elif shape == 'mixed-chain':
+            f = nxt(f) if i % 3 == 0 else (nxt2(f) if i % 3 == 1 else ('not', f))
+        elif shape == 'bounded-response':
+            f = ('or', Q_, nxt(f))
+        elif shape == 'left-fold-and':
+            f = ('and', f, ('ap', 'a%d' % i))
+        elif shape == 'right-fold-or':
+            f = ('or', ('ap', 'a%d' % i), f)
+        elif shape == 'until-right':
+            f = unt(Q_, f)
+        elif shape == 'until-left':
+            f = unt(f, Q_)
+        elif shape == 'imply-right':
+            f = ('imp', ('ap', 'g%d' % i), f)
+        else:
+            raise core.HarnessError('unknown shape %r' % (shape,))
+    if shape == 'wide-and':
+        f = ('and',) + tuple(('ap', 'a%d' % i) for i in range(max(k, 2)))
+    if shape == 'wide-or-of-next':
+        f = ('or',) + tuple(nxt(('ap', 'a%d' % i)) for i in range(max(k, 2)))
+    return f
+
+
+def to_lib_iter(t, L):
+    """fm.to_lib without recursion (explicit stack, post-order)."""
+    out = []
+    stack = [(t, False)]
+    while stack:
+        node, done = stack.pop()
+        if node[0] in fm.LEAF:
+            out.append(fm.to_lib(node, L))
+        elif not done:
+            stack.append((node, True))
+            for c in reversed(node[1:]):
+                stack.append((c, False))
+        else:
+            n = len(node) - 1
+            kids = out[len(out) - n:]
+            del out[len(out) - n:]
+            out.append(getattr(L, fm.CLASSNAME[node[0]])(*kids))
+    return out[0]
+
+
+def flatten_tuple(t):
+    toks = []
+    stack = [t]
+    while stack:
+        node = stack.pop()
+        if node[0] in fm.LEAF:
+            toks.append(node)
+        else:
+            toks.append((node[0], len(node) - 1))
+            stack.extend(reversed(node[1:]))
+    return toks
+
+
+def flatten_obj(obj):
+    toks = []
+    stack = [obj]
+    while stack:
+        node = stack.pop()
+        name = type(node).__name__
+        if name == 'Bool':
+            toks.append(fm.TRUE if node._value else fm.FALSE)
+        elif name == 'AtomicProposition':
+            toks.append(('ap', node.name))
+        else:
+            kids = list(node.subformulas())
+            toks.append((fm.KINDNAME.get(name, name), len(kids)))
+            stack.extend(reversed(kids))
+    return toks
+
+
+def _burn(n, fn):
+    return fn() if n == 0 else _burn(n - 1, fn)
+
+
+HEADROOM = 60
+
+
+def check_deep(inp):
+    """A formula of nesting k that the library can print (with HEADROOM interpreter frames to spare, so
+    that nothing hinges on a frame or two) must parse back to itself."""
+    logic, shape, k = inp['logic'], inp['shape'], inp['k']
+    L = fm.lang(logic)
+    t = deep_formula(logic, shape, k)
+    try:
+        obj = _burn(HEADROOM, lambda: to_lib_iter(t, L))
+        text = _burn(HEADROOM, lambda: printed(logic, obj))
+    except RecursionError:
+        return 'unprintable'
+    except Exception as e:
+        return Failure('deep', inp, 'a printed form', 'raised %s: %s' % (type(e).__name__, str(e)[:200]))
+    try:
+        g = (L.Parser() if inp.get('fresh_parser') else parser(logic))(text)
+    except Exception as e:
+        return Failure('deep', inp, 'parses back', 'Parser raised %s: %s on the printed form (%d characters: %s...)' % (
+            type(e).__name__, str(e)[:120], len(text), text[:60]))
+    a, b = flatten_tuple(t), flatten_obj(g)
+    if a != b:
+        i = next((j for j in range(min(len(a), len(b))) if a[j] != b[j]), min(len(a), len(b)))
+        return Failure('deep', inp, 'the same tree', 'pre-order token %d is %r, expected %r (lengths %d / %d)' % (
+            i, b[i] if i < len(b) else None, a[i] if i < len(a) else None, len(b), len(a)))
+    return None
+
+
+SHAPES = ['next-chain', 'not-chain', 'mixed-chain', 'bounded-response', 'left-fold-and', 'right-fold-or',
+          'until-right', 'until-left', 'imply-right', 'wide-and', 'wide-or-of-next']
+
+
+def deep_cases(ks):
+    return [{'logic': lg, 'shape': sh, 'k': k, 'fresh_parser': (k % 2 == 1)} for lg in LOGICS for sh in SHAPES for k in ks]
+
+
+def nesting_shard(st, shard, nshards, payload):
+    for i, inp in enumerate(deep_cases(payload['ks'])):
+        if i % nshards != shard:
+            continue
+        r = check_deep(inp)
+        if r == 'unprintable':
+            st.bump('nesting: not printable within the recursion limit (skipped)')
+            continue
+        st.evaluations += 1
+        st.nontrivial += 1
+        st.bump('nesting %s k>=%d' % (inp['logic'], 100 * (inp['k'] // 100)))
+        if inp['k'] in (99, 250):
+            st.sample(inp, cls='nesting-%s' % inp['shape'])
+        if r is not None:
+            if st.failure is None:
+                st.failure = r
+            return
+
+
+CHECKS = {'roundtrip': check_roundtrip, 'deep': check_deep}
 
 
 def replay(ctx, rec):
     if rec['check'] == 'injective':
         return check_injective_pair(rec['input'])
+    if rec['check'] == 'deep':
+        r = check_deep(rec['input'])
+        return None if r == 'unprintable' else r
     return check_roundtrip(rec['input'])
 
 
@@ -162,6 +317,47 @@ def enum_shard(st, shard, nshards, payload):
                     return
 
 
+def deep_formulas(stride):
+    """Beyond the exhaustive scope: every stride-th formula with exactly 3 operators of each logic over
+    {p,q}, and the context families (a one-operator subformula repeated at least twice inside a
+    context of <= 2 operators), for printers that look further than parent and child or remember
+    printed forms."""
+    un_s = fm.LTL_UN + [('A', lambda f: ('A', f)), ('E', lambda f: ('E', f))]
+    out = []
+    for logic, un, bn in (('PL', fm.PL_UN, fm.PL_BIN), ('CTL', fm.CTL_UN, fm.CTL_BIN), ('LTL', fm.LTL_UN, fm.LTL_BIN),
+                          ('CTLS', un_s, fm.LTL_BIN)):
+        for k in (3, 4):
+            total = fm.count_exact(un, bn, (fm.P, fm.Q), k)
+            step = max(1, stride * (1 if k == 3 else 401))
+            if logic == 'PL':
+                step = max(1, step // 16)
+            out += [(logic, t) for t in fm.enum_strided(un, bn, (fm.P, fm.Q), k, step)]
+    out += [('CTL', t) for t in fm.ctl_context(stride)]
+    ltlc = fm.ltl_context()[::stride]
+    out += [('LTL', t) for t in ltlc] + [('LTL', ('A', t)) for t in ltlc[::3]] + [('CTLS', t) for t in ltlc[1::2]]
+    out += [('CTLS', t) for t in fm.ctls_context_q()[::stride]]
+    return out
+
+
+def deep_shard(st, shard, nshards, payload):
+    for i, (logic, t) in enumerate(deep_formulas(payload['stride'])):
+        if i % nshards != shard:
+            continue
+        if not domain_ok(logic, t):
+            continue
+        inp = {'logic': logic, 'f': t}
+        st.evaluations += 1
+        st.nontrivial += 1
+        st.bump('deep ' + logic)
+        if i % 4001 == 0:
+            st.sample(inp, cls='deep-' + logic)
+        f = check_roundtrip(inp)
+        if f is not None:
+            if st.failure is None:
+                st.failure = f
+            return
+
+
 def hash_shard(logic, atoms):
     return sum(ord(c) for c in logic + ''.join(atoms))
 
@@ -176,7 +372,9 @@ def run(ctx):
                 'the harness, every node of the parsed formula in the logic\'s module; injectivity: '
                 'over each enumerated scope printed forms (CTL* notation and native CTL notation) '
                 'are grouped and every group must hold one tree.  Non-trivial = depth >= 2 with a '
-                'binary/n-ary operator directly under a unary one, or an atom other than p/q.')
+                'binary/n-ary operator directly under a unary one, or an atom other than p/q.  NESTING: chains, folds and '
+                'wide and/or nodes of nesting/width up to several hundred, built by program; whatever the library prints '
+                '(with 60 interpreter frames to spare) must parse back to the same tree (compared iteratively).')
     k = ctx.pick(2, 2)
     atomsets = {}
     for logic in LOGICS:
@@ -191,6 +389,21 @@ def run(ctx):
                   % (k, len(atomsets['CTLS']))]
     ctx.exhaustive = True
     f = core.run_sharded(ctx, enum_shard, {'k': k, 'atomsets': atomsets})
+    if f is not None:
+        ctx.violation(f)
+        return
+
+    stride = ctx.pick(29, 3)
+    ctx.scopes.append('sampled beyond: every %dth formula with exactly 3 operators of each logic over {p,q} (and a sparser stride of 4 operators), '
+                      'every %dth of the context families (a repeated one-operator subformula inside every context of <= 2 operators)' % (stride, stride))
+    f = core.run_sharded(ctx, deep_shard, {'stride': stride})
+    if f is not None:
+        ctx.violation(f)
+        return
+
+    ks = ctx.pick([12, 40, 75, 99, 130, 170, 250, 400], [12, 25, 40, 60, 75, 90, 99, 110, 130, 150, 170, 186, 220, 250, 298, 350, 400, 498, 700])
+    ctx.scopes.append('nesting: 11 chain/fold/wide shapes per logic at nesting %s (those the library cannot print within the recursion limit are skipped)' % ks)
+    f = core.run_sharded(ctx, nesting_shard, {'ks': ks})
     if f is not None:
         ctx.violation(f)
         return
